@@ -146,6 +146,9 @@ class MacroProgram(ElementProgram):
         # Internal array for current interpolation status
         self._interpolation = [True]
 
+        # Internal array: is the text part of an explicit translation?
+        self._translated = [False]
+
         # Internal dictionary of macro definitions
         self._macros = {}
 
@@ -229,6 +232,7 @@ class MacroProgram(ElementProgram):
         self._switches.append(switch)
 
         body = []
+        translated = self._translated[-1] and (I18N, 'name') not in ns
 
         # Include macro
         use_macro = ns.get((METAL, 'use-macro'))
@@ -301,6 +305,7 @@ class MacroProgram(ElementProgram):
                 # expression evaluates to ``default``.
                 if not ns.get((TAL, 'content')):
                     content = nodes.Translate(clause, content)
+                    translated = True
 
             # tal:attributes
             try:
@@ -670,6 +675,7 @@ class MacroProgram(ElementProgram):
             raise LanguageError("Bad interpolation setting.", clause)
 
         self._interpolation.append(INTERPOLATION)
+        self._translated.append(translated)
 
         # Visit content body
         for child in children:
@@ -677,6 +683,7 @@ class MacroProgram(ElementProgram):
 
         self._switches.pop()
         self._interpolation.pop()
+        self._translated.pop()
 
         if use_macro:
             self._use_macro.pop()
@@ -744,7 +751,9 @@ class MacroProgram(ElementProgram):
     def visit_text(self, node):
         self._last = node
 
-        translation = self.implicit_i18n_translate
+        # Text of an element marked i18n:translate is translated with it
+        translation = self.implicit_i18n_translate and \
+            not self._translated[-1]
 
         if self._interpolation[-1] and '${' in node:
             char_escape = ('&', '<', '>') if self.escape else ()
